@@ -6,7 +6,11 @@ discard_read / write with a scripted socket / serial.Serial stand-in and a virtu
 names `socket`, `serial`, `time` as seen from qmi.core.transport are replaced).  The Coq model
 (theories/C13/Model.v) gets the same device script and call sequence and must produce, per call,
 the same bytes / exception class and the same calls on the stand-in (including the settimeout
-arguments, i.e. the deadline arithmetic).  The property oracle below re-states C13 directly on
+arguments, i.e. the deadline arithmetic) as SOME policy of the model does (Model.pol: the choices the
+property leaves open - returning or timing out when the data is complete but the deadline has
+passed, < or <= at the deadline, discard polling once or until empty, open check before or after
+the buffer search); the tuning constants (MIN/MAX_PACKET_SIZE per class, serial poll interval) are
+read from the live classes on every run and handed to the model.  The property oracle below re-states C13 directly on
 the implementation's observations (independent of the model).
 
 Device script = list of events, one consumed per device access:
@@ -24,10 +28,9 @@ import socket as real_socket
 from common import cZ, cN, clist, cbytes, copt
 
 THEORY = "C13"
-SER_TICK = 40
+SER_TICK = 40       # default only; the stand-in uses the timeout the code hands to serial.Serial
 T0 = 1000
 
-KNOWN_RUT_KEY = "oracle:udp:read_until_timeout:returned more bytes than requested"
 
 
 class Hang(BaseException):
@@ -50,6 +53,7 @@ class Dev:
         self.deadline = None         # clock value at which the current API call's timeout expires
         self.marks = []              # "at" / "after": data handed over exactly at / after the deadline
         self.kind = "tcp" if stream_mode else "udp"
+        self.ser_tick = None         # ticks a short Serial.read lasts (from serial.Serial(timeout=...))
 
     def mark(self, data):
         if data and self.deadline is not None:
@@ -114,7 +118,7 @@ class LazyDev(Dev):
         if access != "read" or len(self.pend) >= k:
             horizon = self.clock
         else:
-            horizon = self.clock + SER_TICK
+            horizon = self.clock + (self.ser_tick or SER_TICK)
         got, last = bytearray(), self.clock
         while self.pk and self.pk[0][0] <= horizon and (access != "read" or len(self.pend) + len(got) < k
                                                          or self.pk[0][0] <= self.clock):
@@ -156,6 +160,9 @@ class FakeSocket:
         if t is not None and t < 0:
             raise ValueError("Timeout value out of range")
         self.tmo = t
+
+    def setblocking(self, flag):
+        self.settimeout(None if flag else 0)
 
     def close(self):
         self.dev.log.append(("close",))
@@ -207,13 +214,17 @@ class FakeSocket:
         return self._recv(size), ("10.0.0.1", 5000)
 
     def recv(self, size):
-        self.dev.log.append(("recv", size))
+        self.dev.log.append(("recvfrom", size))          # recv / recvfrom: same observation
         return self._recv(size)
 
 
 class FakeSerial:
     def __init__(self, dev, *a, **kw):
         self.dev = dev
+        tmo = kw.get("timeout")
+        if tmo is None or tmo <= 0:
+            raise AssertionError("harness: serial.Serial opened without a positive read timeout (%r)" % (tmo,))
+        dev.ser_tick = max(1, int(round(1000 * tmo)))     # seconds -> clock ticks of 1 ms
         dev.log.append(("open",))
 
     def _arrive(self, access="poll", k=0):
@@ -246,7 +257,7 @@ class FakeSerial:
         self._arrive("read", k)
         d.log.append(("read", k))
         if silent:
-            d.clock += SER_TICK
+            d.clock += d.ser_tick
             if d.blocking:
                 raise Hang()        # timeout None on a silent port: the read loop never ends
         out = bytes(d.pend[:k])
@@ -309,6 +320,21 @@ EXC = {"QMI_InvalidOperationException": "invalid", "QMI_TimeoutException": "time
        "Hang": "hang"}
 
 
+def live_constants(tr, kind, dev):
+    """The tuning constants of the class under test, read from the live code (never hard-coded)."""
+    if kind == "serial":
+        tk = dev.ser_tick if dev.ser_tick is not None else max(1, int(round(1000 * tr.QMI_SerialTransport.SERIAL_READ_TIMEOUT)))
+        return {"tick": int(tk)}
+    cls = tr.QMI_TcpTransport if kind == "tcp" else tr.QMI_UdpTransport
+    return {"min": int(cls.MIN_PACKET_SIZE), "max": int(cls.MAX_PACKET_SIZE)}
+
+
+def class_constants():
+    import qmi.core.transport as tr
+    return {"tcp": live_constants(tr, "tcp", None), "udp": live_constants(tr, "udp", None),
+            "serial": {"tick": max(1, int(round(1000 * tr.QMI_SerialTransport.SERIAL_READ_TIMEOUT)))}}
+
+
 def impl_run(kind, events, ops, t0=T0, dev=None):
     """Drive the real transport class.  Returns per call:
     (result, calls on the stand-in, transport buffer after the call, #bytes handed so far,
@@ -358,10 +384,21 @@ def impl_run(kind, events, ops, t0=T0, dev=None):
             except Exception as e:  # noqa
                 n = type(e).__name__
                 res = (EXC[n],) if n in EXC else ("other", n)
-            obs.append((res, list(dev.log), list(bytes(t._read_buffer)), len(dev.handed), list(dev.marks)))
+            log = list(dev.log)
+            if o[0] == "write":
+                # how the socket is put into blocking mode and whether the data goes out in one or several
+                # send calls is not the property's business: the observation is the bytes sent, in order
+                sends = [c for c in log if c[0] == "send"]
+                rest = [c for c in log if c[0] not in ("send", "settimeout")]
+                if sends or res == ("none",):      # an accepted write of b"" may legitimately send nothing
+                    log = rest + [("send", [b for c in sends for b in c[1]])]
+                else:
+                    log = rest
+            obs.append((res, log, list(bytes(t._read_buffer)), len(dev.handed), list(dev.marks)))
             if res[0] == "hang":
                 break
-    return obs, bytes(dev.handed)
+        live = live_constants(tr, kind, dev)
+    return obs, bytes(dev.handed), live
 
 
 # ------------------------------------------------------------------------------------------------
@@ -390,7 +427,7 @@ def oracle(kind, events, ops, obs, handed):
             if res == ("none",):
                 accepted.append(("send", list(o[1])))
                 if sends != [("send", list(o[1]))]:
-                    flag("written bytes did not reach the device unchanged in one send call", repr(sends))
+                    flag("written bytes did not reach the device unchanged", repr(sends))
             elif sends:
                 flag("refused write reached the device", repr(sends))
         elif sends:
@@ -505,8 +542,8 @@ def c_call(c):
         return "DSetTmo %s" % c_tmo(c[1])
     if c[0] == "send":
         return "DSend %s" % cbytes(c[1])
-    if c[0] in ("recvfrom", "recv", "read"):
-        return "%s %s" % ({"recvfrom": "DRecvFrom", "recv": "DRecv", "read": "DRead"}[c[0]], cN(c[1]))
+    if c[0] in ("recvfrom", "read"):
+        return "%s %s" % ({"recvfrom": "DRecvFrom", "read": "DRead"}[c[0]], cN(c[1]))
     return {"open": "DOpen", "close": "DClose", "in_waiting": "DInWaiting", "reset": "DReset"}.get(c[0], "DRead 99999%N")
 
 
@@ -659,12 +696,17 @@ def gen_cases(ck):
                   [("open",), ("read_until", [13, 10], 5), ("read_until", [13, 10], 5)], "fixed"))
     cases.append(("serial", [("C", [65, 13], 0), ("C", [10, 66, 13, 10], 3)],
                   [("open",), ("read_until", [13, 10], 100), ("read_until", [13, 10], 100)], "fixed"))
-    # big packets: TCP read_until receives at most 512 per call; UDP datagrams up to 4096 (and one over)
-    for size in (511, 512, 513, 1100):
+    # big packets around the live chunk sizes: TCP read_until receives at most MAX_PACKET_SIZE per call; UDP
+    # datagrams up to min(MIN,MAX)_PACKET_SIZE (and one over, which is lost by design)
+    cc = class_constants()
+    tmax = max(1, cc["tcp"]["max"])
+    ubound = max(1, min(cc["udp"]["min"], cc["udp"]["max"]))
+    ck.coverage["live_constants"] = cc
+    for size in (tmax - 1, tmax, tmax + 1, 2 * tmax + 76):
         d = gen_stream(rng, size)
         cases.append(("tcp", [("C", list(d), 0), ("C", [65, 59], 1)],
                       [("open",), ("read_until", [59], 10), ("read", 3, 0)], "big"))
-    for size in (4095, 4096, 4097):
+    for size in (ubound - 1, ubound, ubound + 1):
         d = gen_stream(rng, size)
         cases.append(("udp", [("C", [65, 66], 0), ("C", list(d), 0), ("C", [67, 59], 1)],
                       [("open",), ("read", 1, 5), ("read", 10, 5), ("read_until", [59], 10), ("discard",)], "big"))
@@ -702,9 +744,19 @@ def gen_cases(ck):
 
 # ------------------------------------------------------------------------------------------------
 
+LIVE = {}      # kind -> constants seen in the last run of that kind (read from the live class)
+
+
 def evaluate(kind, ev, ops):
-    obs, handed = impl_run(kind, ev, ops)
+    obs, handed, live = impl_run(kind, ev, ops)
+    LIVE[kind] = live
     return obs, handed, oracle(kind, ev, ops, obs, handed)
+
+
+def kcode_of(kind, live):
+    if kind == "serial":
+        return "(KSerial %s)" % cZ(live["tick"])
+    return "(KSock %s %s %s)" % ("true" if kind == "tcp" else "false", cN(live["min"]), cN(live["max"]))
 
 
 def shrink(kind, ev, ops, key):
@@ -749,11 +801,14 @@ def run(ck):
         "hand-written model theories/C13/Model.v of the socket and serial read loops, tied to /repo by this run's correspondence",
         "python harness c13.py: scripted socket / serial.Serial stand-ins and virtual clock (they DEFINE what a device "
         "schedule is: one event per device access; exhausted script = silent device), canonicalisation of results",
-        "OS sockets: TCP = reliable FIFO byte stream or orderly close; UDP = whole datagrams <= 4096 bytes; "
+        "OS sockets: TCP = reliable FIFO byte stream or orderly close; UDP = whole datagrams within the receive size; "
         "pyserial read(k) returns at most k bytes",
     ]
     ck.assumptions = [
-        "UDP datagrams are at most 4096 bytes (documented limit of QMI_UdpTransport); larger ones are lost by design",
+        "UDP datagrams are at most min(MIN_PACKET_SIZE, MAX_PACKET_SIZE) of QMI_UdpTransport (read live; 4096 at the "
+        "pin: documented limit of the transport); larger ones are lost by design",
+        "the serial stand-in's short read lasts round(1000 * timeout handed to serial.Serial) clock ticks (live value)",
+        "of a write only the bytes sent, in order, are observed (not settimeout calls or the number of send calls)",
         "byte counts are >= 0; timeouts are None or integers of clock ticks (float arithmetic on them is exact)",
         "write() and the VXI-11 / USBTMC / GPIB transports are outside the property",
         "a zero-length UDP datagram is reported by the code as end of input; modelled as such",
@@ -782,7 +837,6 @@ def run(ck):
                     ck.count("dyn:data-%s-deadline:%s:%s" % (m, kind, o[0]))
             prev_nh = x[3]
         ck.count("stream:%s" % ("0" if not handed else "1-9" if len(handed) < 10 else "10-99" if len(handed) < 100 else "100+"))
-        known_only = bool(bad) and all(k == KNOWN_RUT_KEY for k, _ in bad)
         for key, what in bad:
             if any(v.key == key for v in ck.violations):
                 continue
@@ -793,22 +847,32 @@ def run(ck):
                 ck.report(key, "C13 fails on the implementation: " + what, jsonable(kind, sev, sops, sobs))
             else:
                 ck.report(key, "C13 fails on the implementation: " + what, jsonable(kind, ev, ops, obs))
-        kcode = {"tcp": "KTcp", "udp": "KUdpCur" if known_only else "KUdp", "serial": "KSerial"}[kind]
-        if known_only:
-            ck.count("compared-with-current-tree-udp-model")
+        kcode = kcode_of(kind, LIVE[kind])
         terms.append(coq_case(kcode, ev, ops, obs))
         metas.append((kind, ev, ops, obs, bool(bad), kcode))
     for m in (metas[2], metas[len(metas) // 2], metas[-1]):
         ck.sample(jsonable(m[0], m[1], m[2], m[3]), 3)
-    bad_idx = ck.run_model("C13.Corr", "check_case", terms, "case", shard=250)
+    # 1. the pinned policy; 2. for the cases it does not explain, membership in the allowed outcomes (any policy)
+    off_pin = ck.run_model("C13.Corr", "check_case_pinned", terms, "case", shard=250)
+    ck.coverage["cases_needing_a_non_pinned_policy"] = len(off_pin)
+    bad_sub = ck.run_model("C13.Corr", "check_case", [terms[i] for i in off_pin], "case", shard=40) if off_pin else []
+    bad_idx = [off_pin[j] for j in bad_sub]
     ck.coverage["correspondence_disagreements"] = len(bad_idx)
+    explained = [i for i in off_pin if i not in set(bad_idx)]
+    for i in explained[:2]:
+        kind, ev, ops, obs, obad, kcode = metas[i]
+        pol = ck.model_eval("C13.Corr", "matching_policy %s" % coq_case(kcode, ev, ops, obs))
+        ck.coverage.setdefault("non_pinned_policy_examples", []).append(
+            {"case": jsonable(kind, ev, ops, obs), "policy": pol})
     for i in bad_idx[:4]:
         kind, ev, ops, obs, obad, kcode = metas[i]
         mo = ck.model_eval("C13.Corr", "model_out %s" % coq_case(kcode, ev, ops, obs))
         ck.report("corr:%s:%s" % (kind, "oracle-fails" if obad else "model-differs"),
-                  "implementation and Coq model disagree on a call sequence"
+                  "what the implementation did on a call sequence is not among the outcomes the Coq model allows "
+                  "(no policy of Model.pol with the live constants %r explains it)" % (LIVE.get(kind),)
                   + ("" if obad else " (the property oracle passes on it)"),
-                  dict(jsonable(kind, ev, ops, obs), model=mo, broken="correspondence C13.Corr.check_case"),
+                  dict(jsonable(kind, ev, ops, obs), model_pinned_policy=mo, live_constants=LIVE.get(kind),
+                       broken="correspondence C13.Corr.check_case"),
                   found_input=obad)
     return ck.finish("fixed boundary cases + exhaustive 2-call sequences over every packetisation of a 4-byte stream "
                      "(tcp/udp/serial) + seeded random streams, packetisations, arrival delays and call sequences; "
@@ -824,11 +888,13 @@ def replay(rep):
     obs, handed, bad = evaluate(kind, ev, ops)
     for o, x in zip(ops, obs):
         print("call %-40r -> %r  device calls %r  buffer after %r" % (o, x[0], x[1], x[2]))
-    kcode = {"tcp": "KTcp", "udp": "KUdp", "serial": "KSerial"}[kind]
+    kcode = kcode_of(kind, LIVE[kind])
+    print("live constants:", LIVE[kind])
     try:
         ck = common.Check("C13")
-        print("model:", ck.model_eval("C13.Corr", "model_out %s" % coq_case(kcode, ev, ops, obs)))
-        print("model agrees:", ck.model_eval("C13.Corr", "check_case %s" % coq_case(kcode, ev, ops, obs)))
+        print("model (pinned policy):", ck.model_eval("C13.Corr", "model_out %s" % coq_case(kcode, ev, ops, obs)))
+        print("allowed by the model:", ck.model_eval("C13.Corr", "check_case %s" % coq_case(kcode, ev, ops, obs)))
+        print("explaining policy:", ck.model_eval("C13.Corr", "matching_policy %s" % coq_case(kcode, ev, ops, obs)))
         ck.clean_cases()
     except Exception as e:  # noqa
         print("model evaluation unavailable:", e)
